@@ -130,7 +130,7 @@ def build(r, name, repr_key, n, mask, fieldless, generics=None, style=None):
     if r.random() < 0.25:
         spec.nest = True          # from_repr is called from outside the enum's own module
         if r.random() < 0.5:
-            spec.vis = r.choice(["pub(crate)", "pub(super)"])
+            spec.vis = r.choice(["pub(crate)", "pub(super)", "pub(in super::super)"])
     gen.rawify(r, spec, explicit_names=False)
     gen.maybe_macro_wrap(r, spec)
     for v in spec.variants:
